@@ -1466,6 +1466,10 @@ pub mod verif {
         pub fn fatal(self) -> bool {
             self.0.send(Err(P2pError::WorkerDied)).is_ok()
         }
+        /// the requesting future was dropped
+        pub fn is_closed(&self) -> bool {
+            self.0.is_closed()
+        }
     }
 
     pub fn daser_p2p(channel_capacity: usize) -> (Arc<P2p>, DaserP2pRig) {
